@@ -40,7 +40,11 @@ def check(acc, tag, ast, envs, text=None):
         return
     b = impl.build(text)
     if b[0] != "ok":
-        acc.add("evaluator_build_failed")  # C07's business; nothing to compare with
+        acc.add("evaluator_build_failed")
+        g = impl.gen(text, False)
+        if g[0] == "ok":  # the two entry points disagree about the same grammatical source
+            acc.violation({"kind": f"module:{tag}", "text": text, "expose": False, "sub": "build-diff", "observed": list(b),
+                           "why": "generate_code accepts this source and produces a module, the evaluator refuses to be built from it"})  # fmt: skip
         return
     name = ast[1]
     for expose in (False, True):
@@ -50,29 +54,32 @@ def check(acc, tag, ast, envs, text=None):
         if g[0] != "ok":
             acc.violation(dict(case, sub="generate", observed=list(g), why="generate_code failed on a source the evaluator accepts"))
             continue
-        ns = {"__name__": "generated_module"}
-        try:
-            exec(compile(g[1], "<generated>", "exec"), ns)
-        except Exception as e:  # noqa
-            acc.violation(dict(case, sub="exec", observed=f"{type(e).__name__}: {e}", why="module text is not valid stand-alone Python", module=short(g[1], 400)))
-            continue
-        fn = ns.get(name)
-        if not callable(fn):
-            acc.violation(dict(case, sub="name", observed=sorted(k for k in ns if not k.startswith("__"))[:8], why=f"no callable named {name!r}"))
-            continue
-        for env in envs:
-            acc.add("evaluations")
-            a = outcome(fn, env)
-            e = outcome(b[1], env)
-            acc.outcomes.add(a[0] + (":" + str(a[1])[:10] if len(a) > 1 else ""))
-            if a != e and not (a[0] == "ok" == e[0] and oracle.same_value(a[1], e[1])):
-                acc.violation(dict(case, sub="diff", env=enc(env), observed=short(repr(a)), why=f"in-memory evaluator gives {short(repr(e))}"))
+        # stand-alone means: in ANY fresh namespace - a bare dict (exec(text, {})) and a module-like one
+        for nskind in ("bare", "module"):
+            ns = {} if nskind == "bare" else {"__name__": "generated_module"}
+            case = {"kind": f"module:{tag}", "text": text, "expose": expose, "namespace": nskind}
+            try:
+                exec(compile(g[1], "<generated>", "exec"), ns)
+            except Exception as e:  # noqa
+                acc.violation(dict(case, sub="exec", observed=f"{type(e).__name__}: {e}", why="module text is not valid stand-alone Python", module=short(g[1], 400)))
                 continue
-            if ast[3]:  # deterministic: also compare with the reference
-                out = a if a[0] != "exc" else ("exc", a[1], "")
-                why = oracle.agree(out, oracle.expected(ast, env)) if a[0] != "exc" else None
-                if why:
-                    acc.violation(dict(case, sub="ref", env=enc(env), observed=short(repr(a)), why=why))
+            fn = ns.get(name)
+            if not callable(fn):
+                acc.violation(dict(case, sub="name", observed=sorted(k for k in ns if not k.startswith("__"))[:8], why=f"no callable named {name!r}"))
+                continue
+            for env in envs:
+                acc.add("evaluations")
+                a = outcome(fn, env)
+                e = outcome(b[1], env)
+                acc.outcomes.add(a[0] + (":" + str(a[1])[:10] if len(a) > 1 else ""))
+                if a != e and not (a[0] == "ok" == e[0] and oracle.same_value(a[1], e[1])):
+                    acc.violation(dict(case, sub="diff", env=enc(env), observed=short(repr(a)), why=f"in-memory evaluator gives {short(repr(e))}"))
+                    continue
+                if ast[3]:  # deterministic: also compare with the reference
+                    out = a if a[0] != "exc" else ("exc", a[1], "")
+                    why = oracle.agree(out, oracle.expected(ast, env)) if a[0] != "exc" else None
+                    if why:
+                        acc.violation(dict(case, sub="ref", env=enc(env), observed=short(repr(a)), why=why))
         if len(acc.samples) < 1 and expose:
             acc.samples.append({"text": short(text, 160), "layout": "exposed", "module_head": short(g[1], 200)})
 
@@ -128,6 +135,14 @@ def units(tier):
             plain = ("prog", "exp", "s", ("uid",), ("ret", (("A", "1"), ("B", "1"))))
             txt = f"// {v}\n/* {v} */ " + rp.render(plain) + f" // {v}"
             out.append(("raw", "comment", plain, [{"uid": i} for i in range(3)], txt))
+    # characters that str.splitlines() / universal-newline handling treat as line ends, inside a line comment that is
+    # followed by active-looking text: for the language the comment ends at the line feed only
+    for sep in ("\r", "\x0b", "\x0c", "\x1c", "\x1d", "\x1e", "\x85", "\u2028", "\u2029"):
+        plain = ("prog", "exp", None, ("uid",), ("ret", tuple((f"g{i}", "1") for i in range(8))))
+        for txt in (f'def exp {{ // note{sep} salt : "zz"\n splitters : uid return ' + ", ".join(f'"g{i}" weighted 1' for i in range(8)) + " }",
+                    f'def exp {{ /* note{sep} */ // x{sep} salt : "zz"\n splitters : uid // y{sep}\n return ' + ", ".join(f'"g{i}" weighted 1' for i in range(8)) + f" }} // z{sep} }}"):
+            if rp.classify(txt) == ("accept", plain):
+                out.append(("raw", "comment-sep", plain, [{"uid": i} for i in range(12)], txt))
     # literals beyond the range of a double (both paths must still agree, whatever they do with them)
     huge = "1" + "0" * 309 + ".0"
     for body in (f'if f == {huge} {{ return "T" weighted 1 }} else {{ return "F" weighted 1 }}', f'if f in ({huge}, 1) {{ return "T" weighted 1 }} else {{ return "F" weighted 1 }}',
@@ -166,5 +181,9 @@ def replay(data):
     acc = progcheck.Acc()
     envs = [dec(data["env"])] if "env" in data else [{}]
     check(acc, "replay", cl[1], envs)
+    if data.get("sub") == "build-diff":
+        b, g = impl.build(data["text"]), impl.gen(data["text"], False)
+        return (b[0] != "ok" and g[0] == "ok"), f"evaluator: {b[0]}, generate_code: {g[0]}"
+    check(acc, "replay", cl[1], envs, text=data["text"])
     bad = [v for v in acc.viol if v["expose"] == data["expose"]]
     return bool(bad), (bad[0]["sub"] + ": " + bad[0]["why"] if bad else "module and evaluator agree")
